@@ -758,3 +758,162 @@ def stroke_doc(rng, hairpins=False):
     root = g.document(body_nodes=body, root_attrs=root_attrs)
     sanitize_redundant_explicit(root)
     return to_xml(root), g.f, root
+
+
+# ---------------------------------------------------------------- gradients (C06)
+
+STOP_COLORS = ["red", "blue", "lime", "yellow", "black", "white", "orange", "purple", "#123456", "#abcdef", "teal"]
+
+
+def _stops(g, r, n=None):
+    n = n or r.randint(2, 4)
+    offs = sorted(round(r.uniform(0, 1), 2) for _ in range(n))
+    offs[0] = 0.0 if r.random() < 0.6 else offs[0]
+    out = []
+    for o in offs:
+        a = {"offset": (f"{fnum(o * 100)}%" if r.random() < 0.3 else fnum(o)), "stop-color": r.choice(STOP_COLORS)}
+        if r.random() < 0.25:
+            a["stop-opacity"] = r.choice(("0.5", "0.25", "0.8"))
+        out.append(Node("stop", a))
+    return out
+
+
+def _grad_transform(g, r):
+    k = r.random()
+    if k < 0.3:
+        return f"translate({fnum(g.num(-10, 10))} {fnum(g.num(-10, 10))})"
+    if k < 0.5:
+        return f"rotate({fnum(g.num(-80, 80, 0))})"
+    if k < 0.65:
+        return f"scale({fnum(g.num(0.5, 2, 2))} {fnum(g.num(0.5, 2, 2))})"
+    if k < 0.75:
+        return f"skewX({fnum(g.num(-30, 30, 0))})"
+    return g.transform()
+
+
+def gradient_node(g, r, gid, units=None, kind=None, with_stops=True, with_geom=True):
+    kind = kind or r.choice(("linearGradient", "radialGradient"))
+    n = Node(kind, {"id": gid})
+    units = units or r.choice(("objectBoundingBox", "userSpaceOnUse", None))
+    if units:
+        n.attrs["gradientUnits"] = units
+    bb = units != "userSpaceOnUse"
+    pct = r.random() < 0.4
+
+    def L(v):  # v in 0..1 of the reference box
+        if bb:
+            return f"{fnum(round(v * 100, 1))}%" if pct else fnum(round(v, 3))
+        return f"{fnum(round(v * 100, 1))}%" if pct else fnum(round(v * 100, 1))
+
+    if with_geom:
+        if kind == "linearGradient":
+            for k in ("x1", "y1", "x2", "y2"):
+                if r.random() < 0.8:
+                    n.attrs[k] = L(r.uniform(0, 1))
+            if n.attrs.get("x1", "0") == n.attrs.get("x2", "1") and n.attrs.get("y1", "0") == n.attrs.get("y2", "0"):
+                n.attrs["x2"] = L(1.0)
+                n.attrs["x1"] = L(0.0)
+        else:
+            cx, cy, rr = r.uniform(0.3, 0.7), r.uniform(0.3, 0.7), r.uniform(0.3, 0.6)
+            if r.random() < 0.8:
+                n.attrs["cx"] = L(cx)
+                n.attrs["cy"] = L(cy)
+            else:
+                cx = cy = 0.5
+            if r.random() < 0.8:
+                n.attrs["r"] = L(rr)
+            else:
+                rr = 0.5
+            if r.random() < 0.4:
+                # focal point strictly inside the end circle
+                a = r.uniform(0, 6.28)
+                d = r.uniform(0, 0.6) * rr
+                n.attrs["fx"] = L(cx + d * math.cos(a))
+                n.attrs["fy"] = L(cy + d * math.sin(a))
+                g.f["grad_focal"] += 1
+            if r.random() < 0.2:
+                n.attrs["fr"] = L(r.uniform(0.02, 0.2) * rr)
+                g.f["grad_fr"] += 1
+    if r.random() < 0.5:
+        n.attrs["gradientTransform"] = _grad_transform(g, r)
+        g.f["grad_transform"] += 1
+    if r.random() < 0.5:
+        n.attrs["spreadMethod"] = r.choice(("pad", "reflect", "repeat"))
+        g.f["grad_spread_" + n.attrs["spreadMethod"]] += 1
+    if with_stops:
+        n.children = _stops(g, r)
+    g.f["grad_" + kind] += 1
+    g.f["grad_units_" + (units or "default")] += 1
+    if pct:
+        g.f["grad_percent"] += 1
+    return n
+
+
+def gradient_doc(rng, template_before_user=False):
+    """C06 profile.  Known-finding class avoided unless template_before_user: a gradient that is
+    declared *before* the template it hrefs (document order dependence)."""
+    g = Gen(rng, gradients=True, nested_svg=False, unique_fills=True, use=False, display_none=False)
+    r = rng
+    grads = []
+    ids = []
+    for i in range(r.randint(1, 3)):
+        gid = f"gr{i}"
+        if ids and r.random() < 0.45:
+            # href template chain: this gradient takes attributes and/or stops from an earlier one
+            tmpl = r.choice(ids)
+            tn = next(x for x in grads if x.attrs["id"] == tmpl)
+            n = gradient_node(g, r, gid, kind=r.choice((tn.tag, tn.tag, "linearGradient", "radialGradient")),
+                              with_stops=r.random() < 0.4, with_geom=r.random() < 0.6)
+            n.attrs["xlink:href"] = f"#{tmpl}"
+            g.f["grad_href"] += 1
+            if not n.children:
+                g.f["grad_href_stops"] += 1
+            if template_before_user:
+                grads.insert(grads.index(tn), n)  # user first, template after (known finding class)
+                g.f["grad_user_before_template"] += 1
+            else:
+                grads.append(n)
+        else:
+            n = gradient_node(g, r, gid)
+            grads.append(n)
+        ids.append(gid)
+    g.defs.extend(grads)
+    body = []
+    for _ in range(r.randint(2, 4)):
+        k = r.random()
+        if k < 0.35:
+            s = Node("rect", {"x": fnum(g.num(5, 50)), "y": fnum(g.num(5, 50)), "width": fnum(g.num(20, 45)), "height": fnum(g.num(20, 45))})
+        elif k < 0.55:
+            s = Node("circle", {"cx": fnum(g.num(25, 70)), "cy": fnum(g.num(25, 70)), "r": fnum(g.num(10, 25))})
+        elif k < 0.75:
+            s = Node("ellipse", {"cx": fnum(g.num(25, 70)), "cy": fnum(g.num(25, 70)), "rx": fnum(g.num(10, 25)), "ry": fnum(g.num(10, 25))})
+        else:
+            s = Node("path", {"d": gp.render(gs.blob(r, g.num(30, 70), g.num(30, 70), g.num(15, 28)))})
+        s.attrs["fill"] = f"url(#{r.choice(ids)})"
+        tf = r.random()
+        if tf < 0.3:
+            s.attrs["transform"] = f"translate({fnum(g.num(-15, 15))} {fnum(g.num(-15, 15))})"
+            g.f["grad_shape_translate"] += 1
+        elif tf < 0.6:
+            s.attrs["transform"] = g.transform()
+            g.f["grad_shape_transform"] += 1
+        if r.random() < 0.3:
+            grp = Node("g", {"transform": g.transform()}, [s])
+            g.f["grad_group_transform"] += 1
+            s = grp
+        body.append(s)
+    if r.random() < 0.35:
+        # several shapes with different bounding boxes share one gradient under one common transform
+        gid = r.choice(ids)
+        grp = Node("g", {"transform": r.choice((g.transform(), f"translate({fnum(g.num(-10, 10))} {fnum(g.num(-10, 10))})"))})
+        for _ in range(r.randint(2, 3)):
+            grp.children.append(Node("rect", {"x": fnum(g.num(5, 60)), "y": fnum(g.num(5, 60)), "width": fnum(g.num(10, 40)), "height": fnum(g.num(10, 40)),
+                                              "fill": f"url(#{gid})"}))
+        body.append(grp)
+        g.f["grad_shared_under_one_transform"] += 1
+    if r.random() < 0.3:
+        # the same gradient also used by an invisible shape
+        body.append(Node("rect", {"x": "1", "y": "1", "width": "5", "height": "5", "fill": f"url(#{r.choice(ids)})", "opacity": "0"}))
+        g.f["grad_invisible_user"] += 1
+    root = g.document(body_nodes=body)
+    return to_xml(root), g.f, root
